@@ -29,3 +29,13 @@ CHECKS["C09"] = (
     "A recipe language builds hostile packets from valid V2/V3 templates with field overrides and recomputed signatures/tags so they pass the integrity guards; they are injected at every protocol phase (V2 send, V3 handshake, post-auth data, re-auth after 12 h) and observed at three API levels. Oracle: outcome class only (frames / ProtocolError / TimeoutError; AuthenticationError for Device.authenticate; no exception from refresh when no frame was produced). No counterexample among the counted cases.",
     "Peer behaviour is limited to what (time, chunk) scripts on one connection can express.",
     "DESIGN.md 3/C09")
+CHECKS["C10"] = (
+    "exploration", "per-field exhaustive sweeps + pairwise covering array + Hypothesis; oracle = vendor-layout decoder of the 0x40 body in the model device",
+    "Settable states are written through the public setters and apply() (and through SetStateCommand) to a model device whose 0x40 decoder was written from the vendor Lua reference; the decoded body must equal the request field by field, vendor-fixed constants must hold, and distinct states must not collide. All 62 setpoints x 6 modes, all 128 fan bytes, humidity 0..127, all 512 flag combinations x aux, over two backgrounds, plus a pairwise covering array and random states.",
+    "The vendor Lua file is the layout authority; follow-me bit taken from dudanov/MideaUART. Linear alternate setpoint mapping per the property's 13-43 C range.",
+    "DESIGN.md 3/C10")
+CHECKS["C11"] = (
+    "exploration", "exhaustive raw-body grids + Hypothesis; oracle = vendor-layout reading of the 0xC0 body and the statement's temperature predicate",
+    "Raw 0xC0 bodies built by the model's vendor-layout encoder with raw overrides are reported to fresh clients through refresh() on the simulated network (V2 and V3) and through Response.construct+_update_state. Complete grids: 256x10 temperature byte x tenths for both sensors and units, 32x32 setpoint codes, every value of every interpreted byte, lengths 16..40, both check styles, frame types 2/3; random bodies beyond.",
+    "Fan byte limited to 0..127; mode asserted for members 1..6 and swing for the four canonical nibbles only (the vendor layout does not define the rest).",
+    "DESIGN.md 3/C11")
